@@ -482,9 +482,9 @@ pub struct SimFs {
     pub read_marks: RefCell<BTreeMap<String, Rc<RefCell<u64>>>>,
     /// how this run spells the path arguments it hands to the code under test (see [SimFs::sp])
     pub path_style: u64,
-    spelled: RefCell<BTreeMap<String, String>>,
+    spelled: RefCell<BTreeMap<Vec<u8>, String>>,
 }
-pub const PATH_STYLES: [&str; 12] = ["absolute", "relative", "dot-dotdot", "upper-ext", "no-ext", "many-dots", "non-ascii+space", "long-name", "hidden", "other-ext", "double-slash", "odd-length+percent"];
+pub const PATH_STYLES: [&str; 16] = ["absolute", "relative", "dot-dotdot", "upper-ext", "no-ext", "many-dots", "non-ascii+space", "long-name", "hidden", "other-ext", "double-slash", "odd-length+percent", "no-file-name(ends-in-dotdot)", "non-utf8-name", "trailing-space", "leading-space"];
 impl SimFs {
     pub fn new(io: &Io) -> Rc<Self> {
         // the environment of the calls is part of the schedule: half of the runs use plain absolute paths
@@ -504,13 +504,22 @@ impl SimFs {
     }
     /// The spelling under which this run passes the file `canonical` ("/sim/<stem>.<ext>") to the code under test.
     /// Checks keep addressing the store by the canonical name; `create`/`open` map the spelling back.
-    pub fn sp(&self, canonical: &str) -> String {
+    pub fn sp(&self, canonical: &str) -> std::path::PathBuf {
+        self.spell(canonical, self.path_style)
+    }
+    /// Same, for interfaces that take the path as a `String` (the non-UTF-8 style falls back to the plain one)
+    pub fn sp_utf8(&self, canonical: &str) -> String {
+        let st = if self.path_style == 13 { 0 } else { self.path_style };
+        self.spell(canonical, st).to_string_lossy().to_string()
+    }
+    fn spell(&self, canonical: &str, style: u64) -> std::path::PathBuf {
+        use std::os::unix::ffi::{OsStrExt, OsStringExt};
         let name = canonical.rsplit('/').next().unwrap_or(canonical);
         let (stem, ext) = match name.rfind('.') {
             Some(i) => (&name[..i], &name[i + 1..]),
             None => (name, ""),
         };
-        let s = match self.path_style {
+        let s: Vec<u8> = match style {
             0 => canonical.to_string(),
             1 => name.to_string(),
             2 => format!("./work/../{}", name),
@@ -522,16 +531,29 @@ impl SimFs {
             8 => format!("/sim/.{}.{}", stem, ext),
             9 => format!("/sim/{}.{}.bak", stem, ext),
             10 => format!("//sim///{}", name),
-            _ => format!("/sim/{}%20#1.{}", stem, ext),
-        };
+            11 => format!("/sim/{}%20#1.{}", stem, ext),
+            // a path whose `file_name()` is None (the simulated file system still serves a file for it)
+            12 => format!("/sim/{}/..", name),
+            // a Latin-1 name: not valid UTF-8
+            13 => {
+                let mut b = b"/sim/caf\xE9-m\xFCller-".to_vec();
+                b.extend_from_slice(name.as_bytes());
+                self.spelled.borrow_mut().insert(b.clone(), canonical.to_string());
+                return std::path::PathBuf::from(std::ffi::OsString::from_vec(b));
+            }
+            14 => format!("/sim/{} ", name),
+            _ => format!("/sim/ {}", name),
+        }
+        .into_bytes();
         self.spelled.borrow_mut().insert(s.clone(), canonical.to_string());
-        s
+        let _ = std::ffi::OsStr::from_bytes(&s);
+        std::path::PathBuf::from(std::ffi::OsString::from_vec(s))
     }
     fn canon(&self, path: &Path) -> String {
-        let p = path.to_string_lossy().to_string();
-        match self.spelled.borrow().get(&p) {
+        use std::os::unix::ffi::OsStrExt;
+        match self.spelled.borrow().get(path.as_os_str().as_bytes()) {
             Some(c) => c.clone(),
-            None => p,
+            None => path.to_string_lossy().to_string(),
         }
     }
     pub fn plan(&self, path: &str, plan: FilePlan) {
